@@ -102,6 +102,26 @@ impl RootRef<'_> {
 //@prove root.RootRef.remove_file c14
 //@prove root.RootRef.remove_all c14
 //@prove root.RootRef.rename c14
+//@use root.RootRef.mkdir_all c12
+}
+//@item src/root.rs :: struct Root | sub.Root
+impl AsFd for Root {
+    open spec fn fd_id(&self) -> int { self.inner.id() }
+    fn as_fd(&self) -> (r: BorrowedFd<'_>) { self.inner.as_fd() }
+}
+impl Root {
+//@prove root.Root.as_ref
+//@prove root.Root.resolve c14
+//@prove root.Root.resolve_nofollow c14
+//@prove root.Root.open_subpath c14
+//@prove root.Root.readlink c14
+//@prove root.Root.create c14
+//@prove root.Root.create_file c14
+//@prove root.Root.mkdir_all c12
+//@prove root.Root.remove_dir c14
+//@prove root.Root.remove_file c14
+//@prove root.Root.remove_all c14
+//@prove root.Root.rename c14
 }
 } // verus!
 fn main() {}
